@@ -18,7 +18,7 @@
     on instead of at the moment it is sent; the three other classes of the
     property text (already answered, another trace's, non-existent) hold at
     full strength. *)
-From NL Require Import Prompt.Model Prompt.Hist Prompt.Spec Prompt.Inv Prompt.Once Prompt.Erase.
+From NL Require Import Prompt.Model Prompt.Hist Prompt.Spec Prompt.Inv Prompt.Once Prompt.Erase Prompt.Deliver.
 Open Scope Z_scope.
 
 (** the command that closes prompt (t, p) is a sent command carrying exactly
@@ -100,6 +100,103 @@ Theorem C07_no_disturbance_partial : forall ls D,
   vexecs (trace (erase D (trace ls))) = vexecs (trace ls).
 Proof. intros ls D H. split; [exact (erase_never_executed ls D H)|exact (erase_same_execs ls D H)]. Qed.
 
+(** DELIVERY.  In any reachable state: prompt (t, n) is open and t's queue is
+    front ++ (i, c) :: back where c carries number n and no command of [front]
+    does (stale, duplicate of an older prompt, wrong or FUTURE numbers: the
+    model -- like the code -- discards a command for a future prompt number that
+    sits in front, it is not kept for later).  Then exactly [length front + 1]
+    iterations of t's prompt loop discard exactly the commands of [front], in
+    order, execute (i, c), and the prompt closes; [back] stays queued;
+    [frame]: queue_in, counter and every other trace's queue and prompt are
+    unchanged. *)
+Theorem C07_genuine_answer_executed : forall ls t n front i c back,
+  s_open (final ls) t = Some n ->
+  s_map (final ls) t = Some (front ++ (i, c) :: back) ->
+  c_prompt c = n ->
+  (forall j d, In (j, d) front -> c_prompt d <> n) ->
+  let k := S (length front) in
+  let ls' := ls ++ repeat (Take t) k in
+  exists tail,
+    trace ls' = trace ls ++ tail /\
+    map fst tail = repeat (Take t) k /\
+    map snd tail = map (discard_out n) front ++ [OExec n i c] /\
+    s_open (final ls') t = None /\ s_map (final ls') t = Some back /\
+    frame t (final ls) (final ls').
+Proof. exact genuine_answer_executed. Qed.
+
+(** Whole runs.  Hypothesis [no_future_queued]: no command for a not-yet-issued
+    prompt number ever reaches a queue (this excludes exactly the known
+    finding).  Then a prompt that is open and whose answer has been relayed
+    closes after at most (length of its queue) further iterations of its loop,
+    by a command carrying exactly its numbers, the iterations before it only
+    discarding other numbers, no other trace touched ... *)
+Theorem C07_answered_prompt_closes : forall ls t n i c,
+  no_future_queued (trace ls) ->
+  s_open (final ls) t = Some n ->
+  In i (relayed (trace ls)) -> nth_error (sends (trace ls)) i = Some c ->
+  c_trace c = t -> c_prompt c = n ->
+  exists q front j cj back tail,
+    s_map (final ls) t = Some q /\ q = front ++ (j, cj) :: back /\
+    c_trace cj = t /\ c_prompt cj = n /\ (forall j' d, In (j', d) front -> c_prompt d <> n) /\
+    let ls' := ls ++ repeat (Take t) (S (length front)) in
+    trace ls' = trace ls ++ tail /\
+    map snd tail = map (discard_out n) front ++ [OExec n j cj] /\
+    s_open (final ls') t = None /\ In n (exec_prompts (trace ls')) /\
+    frame t (final ls) (final ls').
+Proof. exact answered_prompt_closes. Qed.
+
+(** ... and every command that closes a prompt is a GENUINE answer: it reached
+    the queue while that very prompt was already open *)
+Theorem C07_executed_arrived_while_open : forall ls pre1 i mid t n c post,
+  no_future_queued (trace ls) ->
+  trace ls = pre1 ++ (Relay, ORelayed i) :: mid ++ (Take t, OExec n i c) :: post ->
+  open_in pre1 t = Some n.
+Proof. exact executed_arrived_while_open. Qed.
+
+(** the hypothesis is needed: in the refuting run the command that closes
+    prompt 2 was queued when no prompt of trace 1 was open *)
+Theorem C07_no_future_queued_is_needed :
+  exists ls pre1 i mid t n c post,
+    trace ls = pre1 ++ (Relay, ORelayed i) :: mid ++ (Take t, OExec n i c) :: post /\
+    open_in pre1 t <> Some n /\ ~ no_future_queued (trace ls).
+Proof.
+  exists refuting_run, (trace (firstn 6 refuting_run)), 1%nat,
+         [(OpenPrompt 1, OOpened 2)], 1, 2, (mkCmd 1 2 999).
+  eexists. split; [vm_compute; reflexivity|]. split; [vm_compute; discriminate|].
+  intros NF.
+  assert (H : c_prompt (mkCmd 1 2 999) < 1 + Z.of_nat (length (opens (trace (firstn 6 refuting_run))))).
+  { eapply (NF (trace (firstn 6 refuting_run)) 1%nat); vm_compute; reflexivity. }
+  vm_compute in H. discriminate.
+Qed.
+
+(** non-vacuity of delivery: the genuine answer to prompt 1 sits behind a
+    command for a future number, a stale-looking number and a command with a
+    non-existent number; trace 2 has a prompt open and a queued command *)
+Definition ex_deliver : list label :=
+  [StartTrace 1; StartTrace 2; OpenPrompt 1; OpenPrompt 2;
+   Send (mkCmd 1 7 901); Send (mkCmd 1 0 902); Send (mkCmd 1 (-3) 903); Send (mkCmd 1 1 5); Send (mkCmd 1 1 904);
+   Send (mkCmd 2 9 905); Relay; Relay; Relay; Relay; Relay; Relay].
+
+Example C07_example_delivery :
+  no_future_queued (trace [StartTrace 1; OpenPrompt 1; Send (mkCmd 1 1 5); Relay]) /\
+  s_open (final ex_deliver) 1 = Some 1 /\
+  s_map (final ex_deliver) 1 =
+    Some ([(0%nat, mkCmd 1 7 901); (1%nat, mkCmd 1 0 902); (2%nat, mkCmd 1 (-3) 903)] ++ (3%nat, mkCmd 1 1 5) :: [(4%nat, mkCmd 1 1 904)]) /\
+  outs (ex_deliver ++ repeat (Take 1) 4) = outs ex_deliver ++
+    [ODiscard 1 0 (mkCmd 1 7 901); ODiscard 1 1 (mkCmd 1 0 902); ODiscard 1 2 (mkCmd 1 (-3) 903); OExec 1 3 (mkCmd 1 1 5)] /\
+  s_map (final (ex_deliver ++ repeat (Take 1) 4)) 2 = Some [(5%nat, mkCmd 2 9 905)] /\
+  s_open (final (ex_deliver ++ repeat (Take 1) 4)) 2 = Some 2.
+Proof.
+  split.
+  - intros pre i post c E Hn.
+    assert (Hl : (length pre <= 3)%nat).
+    { assert (Hlen : length (trace [StartTrace 1; OpenPrompt 1; Send (mkCmd 1 1 5); Relay]) = 4%nat) by reflexivity.
+      rewrite E, app_length in Hlen. simpl in Hlen. lia. }
+    destruct pre as [|e0 [|e1 [|e2 [|e3 pre]]]]; try (vm_compute in E; discriminate); [|simpl in Hl; lia].
+    vm_compute in E. inversion E; subst. vm_compute in Hn. inversion Hn; subst. vm_compute. reflexivity.
+  - vm_compute. repeat split; reflexivity.
+Qed.
+
 (** the assertion `pdb_command.trace_no == trace_no` in Prompt.prompt never fails *)
 Theorem C07_no_assertion_failure : forall ls l i, ~ In (l, OAssert i) (trace ls).
 Proof. exact no_assertion_failure. Qed.
@@ -133,3 +230,7 @@ Print Assumptions C07_nonexistent_discarded.
 Print Assumptions C07_no_disturbance_refuted.
 Print Assumptions C07_no_disturbance_partial.
 Print Assumptions C07_no_assertion_failure.
+Print Assumptions C07_genuine_answer_executed.
+Print Assumptions C07_answered_prompt_closes.
+Print Assumptions C07_executed_arrived_while_open.
+Print Assumptions C07_no_future_queued_is_needed.
